@@ -162,12 +162,38 @@ func WriteBodyFixedSize(w network.Writer, r io.Reader, size int64) error {
 	return err
 }
 
+// maxPreallocBodySize bounds what is allocated ahead of the data for a body of declared size.
+const maxPreallocBodySize = 1 << 20
+
 func appendBodyFixedSize(r network.Reader, dst []byte, n int) ([]byte, error) {
 	if n == 0 {
 		return dst, nil
 	}
 
 	offset := len(dst)
+
+	// n is declared by the peer (Content-Length / chunk size): above maxPreallocBodySize it must not
+	// size an allocation (here or inside Peek) before that many bytes have actually arrived.
+	if n > maxPreallocBodySize {
+		for left := n; left > 0; {
+			k := left
+			if k > maxPreallocBodySize {
+				k = maxPreallocBodySize
+			}
+			buf, err := r.Peek(k)
+			if err != nil {
+				if err == io.EOF {
+					err = io.ErrUnexpectedEOF
+				}
+				return dst[:offset], err
+			}
+			dst = append(dst, buf...)
+			r.Skip(len(buf)) // nolint: errcheck
+			left -= len(buf)
+		}
+		return dst, nil
+	}
+
 	dstLen := offset + n
 	if cap(dst) < dstLen {
 		b := make([]byte, round2(dstLen))
